@@ -399,6 +399,7 @@ package block
 //@ func (m *Manager) trySyncNextBlock(ctx, daHeight) (err)
 //@   property C02:kind:inv-establish,kind:inv-preserve,kind:pre,kind:frame,monotone,progress,inv,inv-on-success,scan-start-kept
 //@   property C03:no-halt,validated
+//@   property C07:scan-start-kept
 //@   property C05:kind:crash,kind:frame,inv,state-lbh,state-persisted,monotone
 //@   requires [wiring] m.metrics != nil && m.headerCache != nil && m.dataCache != nil && m.store != nil
 //@   requires [inv] SyncInv(m)
@@ -593,7 +594,7 @@ package block
 // on a chain that starts now - no state, no submission watermarks - nothing counts as waiting for DA
 // submission, whatever the initial height is.
 //@ func NewManager(ctx, signer, config, genesis, store, exec, sequencer, da, logger, headerStore, dataStore, headerBroadcaster, dataBroadcaster, seqMetrics, gasPrice, gasMultiplier, managerOpts) (m, err)
-//@   property C04:height-is-state,height-never-lowered C05:height-is-state,height-never-lowered C06:nothing-pending-on-fresh-chain,watermarks-only-raised,watermarks-exact C07:da-included-restored,da-included-zero-on-fresh-chain C08:nothing-pending-on-fresh-chain
+//@   property C04:height-is-state,height-never-lowered,fails-only-for-cause C05:height-is-state,height-never-lowered,fails-only-for-cause C06:nothing-pending-on-fresh-chain,watermarks-only-raised,watermarks-exact C07:da-included-restored,da-included-zero-on-fresh-chain C08:nothing-pending-on-fresh-chain C17:notification-remembered
 //@   requires [wiring] store != nil && exec != nil && logger != nil
 //@   requires [genesis] genesis.InitialHeight >= 1
 //@   requires [height-range] store.height < 18446744073709551615
@@ -602,8 +603,18 @@ package block
 //@            durable store.has[genesis.InitialHeight], durable store.hdrAt[genesis.InitialHeight], durable store.hsigAt[genesis.InitialHeight],
 //@            durable store.signerAddrAt[genesis.InitialHeight], durable store.signerKeyAt[genesis.InitialHeight], durable store.txsAt[genesis.InitialHeight],
 //@            durable store.dataMetaAt[genesis.InitialHeight], durable store.sigAt[genesis.InitialHeight]
+//@   observe gis := call getInitialState
+//@   observe lc := call LoadCache
+//@   observe pin := call init
+// the node starts on every store a crash can leave behind: start-up fails only for a storage fault, a failed
+// initial state (chain initialisation, signer, genesis above the stored state), unreadable watermarks or
+// unreadable cache files - never because some other record "ought to exist"
+//@   ensures [fails-only-for-cause] err != nil ==> store.faulty || (gis && gis.res1 != nil) || (lc && lc.res0 != nil) || (pin && pin.res0 != nil)
 //@   ensures [height-is-state] err == nil && !store.faulty ==> m != nil && m.store == store && store.height >= m.lastState.LastBlockHeight
 //@   ensures [height-never-lowered] store.height >= old(store.height)
+// C17: a notification that arrives while a block is being produced is remembered - the channel
+// NotifyNewTransactions sends on without blocking has room for one signal
+//@   ensures [notification-remembered] err == nil ==> chanCap(m.txNotifyCh) >= 1
 //@   ensures [nothing-pending-on-fresh-chain] err == nil && !store.faulty && !old(store.hasState) && old(store.height) < genesis.InitialHeight
 //@                       && !old(store.metaHas["last-submitted-header-height"]) && !old(store.metaHas["last-submitted-data-height"])
 //@                       ==> m.pendingHeaders != nil && m.pendingData != nil && NumPending(m.pendingHeaders.base) == 0 && NumPending(m.pendingData.base) == 0
@@ -790,6 +801,9 @@ package block
 //@   ensures [nonempty-only] err == nil ==> forall j :: 0 <= j && j < len(r) ==> r[j] != nil && len(r[j].Data.Txs) > 0
 //@   ensures [signer-is-proposer] err == nil ==> forall j :: 0 <= j && j < len(r) ==> val(r[j].Signer.Address) == val(m.genesis.ProposerAddress)
 //@   ensures [nothing-left-behind] err == nil && len(r) == 0 && !m.store.faulty && old(m.pendingData.base.lastHeight) <= m.store.height ==> m.pendingData.base.lastHeight == m.store.height
+// every item carries a signature of ITS OWN data - transactions and metadata (height, time, chain id, last data hash)
+//@   ensures [each-signed] err == nil ==> forall j :: 0 <= j && j < len(r) ==> Signed(SignerKey(m.signer.val), MarshalDataOf(TxsId(r[j].Data.Txs), DMetaOf(r[j].Data)), val(r[j].Signature))
+//@   loop 1 invariant [each-signed] forall j :: 0 <= j && j < len(signedDataToSubmit) ==> Signed(SignerKey(m.signer.val), MarshalDataOf(TxsId(signedDataToSubmit[j].Data.Txs), DMetaOf(signedDataToSubmit[j].Data)), val(signedDataToSubmit[j].Signature))
 //@   loop 1 invariant [nonempty-only] forall j :: 0 <= j && j < len(signedDataToSubmit) ==> signedDataToSubmit[j] != nil && len(signedDataToSubmit[j].Data.Txs) > 0
 //@                       && val(signedDataToSubmit[j].Signer.Address) == val(m.genesis.ProposerAddress)
 //@   loop 1 invariant [frame] m.pendingData.base.lastHeight == old(m.pendingData.base.lastHeight) && rangeindex >= -1
